@@ -25,7 +25,7 @@ structure SMA (α : Type) where
 
 namespace SMA
 def new (P : Nat) (length : Nat) (value : α) : Res (SMA α) :=
-  if length = 0 then .err .wrongMethodParameters
+  if length = 0 ∨ length = P then .err .wrongMethodParameters
   else (winNew P length value).bind fun w =>
     .ok { divider := 1 / (length : α), value := value, window := w }
 
@@ -50,7 +50,7 @@ structure WMA (α : Type) where
 
 namespace WMA
 def new (P : Nat) (length : Nat) (value : α) : Res (WMA α) :=
-  if length = 0 then .err .wrongMethodParameters
+  if length = 0 ∨ length = P then .err .wrongMethodParameters
   else
     let sum : α := ((length * (length + 1) / 2 : Nat) : α)
     let fl : α := (length : α)
@@ -79,7 +79,7 @@ structure EMA (α : Type) where
 namespace EMA
 /-- `length + 1` is PeriodType arithmetic: `EMA::new(PeriodType::MAX)` overflows -/
 def new (P : Nat) (length : Nat) (value : α) : Res (EMA α) :=
-  if length = 0 then .err .wrongMethodParameters
+  if length = 0 ∨ length = P then .err .wrongMethodParameters
   else match chkAdd P length 1 with
     | .error p => .panic p
     | .ok l1 => .ok { alpha := ((2 : Nat) : α) / (l1 : α), value := value }
@@ -98,7 +98,7 @@ structure DMA (α : Type) where
 
 namespace DMA
 def new (P : Nat) (length : Nat) (value : α) : Res (DMA α) :=
-  if length = 0 then .err .wrongMethodParameters
+  if length = 0 ∨ length = P then .err .wrongMethodParameters
   else (EMA.new P length value).bind fun e => (EMA.new P length value).bind fun d =>
     .ok { ema := e, dma := d }
 
@@ -117,7 +117,7 @@ structure TMA (α : Type) where
 
 namespace TMA
 def new (P : Nat) (length : Nat) (value : α) : Res (TMA α) :=
-  if length = 0 then .err .wrongMethodParameters
+  if length = 0 ∨ length = P then .err .wrongMethodParameters
   else (DMA.new P length value).bind fun d => (EMA.new P length value).bind fun t =>
     .ok { dma := d, tma := t }
 
@@ -136,7 +136,7 @@ structure DEMA (α : Type) where
 
 namespace DEMA
 def new (P : Nat) (length : Nat) (value : α) : Res (DEMA α) :=
-  if length = 0 then .err .wrongMethodParameters
+  if length = 0 ∨ length = P then .err .wrongMethodParameters
   else (EMA.new P length value).bind fun e => (EMA.new P length value).bind fun d =>
     .ok { ema := e, dma := d }
 
@@ -158,7 +158,7 @@ structure TEMA (α : Type) where
 
 namespace TEMA
 def new (P : Nat) (length : Nat) (value : α) : Res (TEMA α) :=
-  if length = 0 then .err .wrongMethodParameters
+  if length = 0 ∨ length = P then .err .wrongMethodParameters
   else (EMA.new P length value).bind fun e => (EMA.new P length value).bind fun d =>
     (EMA.new P length value).bind fun t => .ok { ema := e, dma := d, tma := t }
 
@@ -233,7 +233,7 @@ structure SWMA (α : Type) where
 namespace SWMA
 /-- `(length + 1) / 2` is PeriodType arithmetic -/
 def new (P : Nat) (length : Nat) (value : α) : Res (SWMA α) :=
-  if length = 0 then .err .wrongMethodParameters
+  if length = 0 ∨ length = P then .err .wrongMethodParameters
   else match chkAdd P length 1 with
     | .error p => .panic p
     | .ok l1 =>
@@ -299,7 +299,7 @@ structure HMA (α : Type) where
 namespace HMA
 /-- third length: `(length as ValueType).sqrt() as PeriodType` = ⌊√length⌋ -/
 def new (P : Nat) (length : Nat) (value : α) : Res (HMA α) :=
-  if length = 0 ∨ length = 1 then .err .wrongMethodParameters
+  if length = 0 ∨ length = 1 ∨ length = P then .err .wrongMethodParameters
   else (WMA.new P (length / 2) value).bind fun a => (WMA.new P length value).bind fun b =>
     (WMA.new P (Nat.sqrt length) value).bind fun c => .ok { wma1 := a, wma2 := b, wma3 := c }
 
@@ -328,7 +328,7 @@ structure LinReg (α : Type) where
 
 namespace LinReg
 def new (P : Nat) (length : Nat) (value : α) : Res (LinReg α) :=
-  if length = 0 ∨ length = 1 then .err .wrongMethodParameters
+  if length = 0 ∨ length = 1 ∨ length = P then .err .wrongMethodParameters
   else
     let fl : α := (length : α)
     let n1 := length - 1
@@ -367,7 +367,7 @@ def dot (vals ws : List α) : α :=
   (List.zipWith (fun v w => v * w) vals ws).foldl (· + ·) 0
 
 def new (P : Nat) (weights : List α) (value : α) : Res (Conv α) :=
-  if 1 ≤ weights.length ∧ weights.length ≤ P then
+  if 1 ≤ weights.length ∧ weights.length ≤ P - 1 then
     (winNew P weights.length value).bind fun w =>
       .ok { window := w, weights := weights, wsum_invert := 1 / weights.foldl (· + ·) 0 }
   else .err .wrongMethodParameters
@@ -396,7 +396,7 @@ structure VWMA (α : Type) where
 
 namespace VWMA
 def new (P : Nat) (length : Nat) (value : α × α) : Res (VWMA α) :=
-  if length = 0 then .err .wrongMethodParameters
+  if length = 0 ∨ length = P then .err .wrongMethodParameters
   else (Res.ofExcept (Window.new P length value)).bind fun w =>
     .ok { sum := value.1 * value.2 * (length : α), vol_sum := value.2 * (length : α), window := w }
 
